@@ -29,8 +29,6 @@ IsEvent(a) == l <= Len(Traces[tid].ev) /\ Ev.a = a /\ l' = l + 1 /\ UNCHANGED ti
 
 SeenSet(e) == { e.seen[j] : j \in 1..Len(e.seen) }
 
-WordsOutsideModel(e) == { i \in 1..Len(e.toks) : e.toks[i].k \in {"C", "D"} /\ FALSE }   \* none: C/D words are dropped by the machine too
-
 Verdict(e) == LET cls == H!Class(e.toks) IN
               IF e.w \in RawWrappers THEN H!ConformsRaw(cls, SeenSet(e)) ELSE H!Conforms(cls, SeenSet(e))
 
@@ -57,10 +55,11 @@ ExplainSpec == TraceInit /\ [][ExplainObs]_vars
 (* Model-agreement mode (self-test of the ALGORITHM part, never part of the verdict): the observed
    set must EQUAL what the step machine emits -- the reference machine (MBV_MODEL = "ref", run
    against the repaired code) or the as-built machine with all five deviations (MBV_MODEL =
-   "asbuilt", run against the pinned code).  Comment / CDATA words are outside the machine.  *)
+   "asbuilt", run against the pinned code).  Comment / CDATA words are dropped by the machine
+   as by the code.  A difference is printed, never blocks.                                   *)
 ModelOut(e) == IF IOEnv.MBV_MODEL = "asbuilt" THEN HB!AlgOut(e.toks, e.eof) ELSE H!AlgOut(e.toks, e.eof)
 ModelObs == /\ IsEvent("Obs")
-            /\ (Ev.w \notin RawWrappers /\ SeenSet(Ev) \ WordsOutsideModel(Ev) # ModelOut(Ev))
+            /\ (Ev.w \notin RawWrappers /\ SeenSet(Ev) # ModelOut(Ev))
                    => PrintT(<<"DIFF", tid, l, ModelOut(Ev)>>)
 ModelSpec == TraceInit /\ [][ModelObs]_vars
 =============================================================================
